@@ -36,6 +36,7 @@ type structNode struct {
 	Hdr    [2]int        `json:"hdr"`
 	Body   [2]int        `json:"body"`
 	Lines  bool          `json:"lines"`
+	Ext    bool          `json:"ext"`
 	Kids   []*structNode `json:"kids"`
 	Env    []string      `json:"env"`
 }
@@ -323,6 +324,9 @@ func (c *cmp) node(n *structNode, it *mimegen.Item) {
 			if len(it.Kids) > i+5 {
 				c.fail(n, "ext-count", "more than 4 extension fields", it)
 			}
+			if n.Ext {
+				c.extData(n, it, i+2, false)
+			}
 		} else if len(it.Kids) != i+1 {
 			c.fail(n, "body-has-ext", "BODY must not carry extension data", it)
 		}
@@ -348,6 +352,9 @@ func (c *cmp) node(n *structNode, it *mimegen.Item) {
 		}
 		if c.ext && len(it.Kids) > want+4 {
 			c.fail(n, "ext-count", "more than 4 extension fields", it)
+		}
+		if c.ext && n.Ext {
+			c.extData(n, it, want, true)
 		}
 		if !it.Kids[0].IsString() || !strings.EqualFold(it.Kids[0].Str, n.Type) || !it.Kids[1].IsString() || !strings.EqualFold(it.Kids[1].Str, n.Sub) {
 			c.fail(n, "type", fmt.Sprintf("expected %s/%s", n.Type, n.Sub), it)
@@ -381,6 +388,56 @@ func (c *cmp) node(n *structNode, it *mimegen.Item) {
 				c.fail(n, "lines", fmt.Sprintf("the body has %d text lines, reported %s", mimegen.TextLines(body), it.Kids[li].String()), it)
 			}
 		}
+	}
+}
+
+// extData: the extension data of BODYSTRUCTURE (RFC 3501 body-ext-1part: md5 dsp lang loc; body-ext-mpart after the
+// parameter list: dsp lang loc) must be that of THIS part's own header fields.
+func (c *cmp) extData(n *structNode, it *mimegen.Item, at int, withMD5 bool) {
+	info := c.b.Nodes[mimegen.AddrKey(n.A)]
+	if info == nil {
+		return
+	}
+	need := 3
+	if withMD5 {
+		need = 4
+	}
+	if len(it.Kids) < at+need {
+		c.fail(n, "ext-missing", fmt.Sprintf("the part carries Content-Disposition / -Language / -Location%s: expected %d extension fields, reported %d",
+			map[bool]string{true: " / -MD5", false: ""}[withMD5], need, len(it.Kids)-at), it)
+		return
+	}
+	if withMD5 {
+		if v, ok := it.Kids[at].NString(); !ok || v != info.Ext["md5"] {
+			c.fail(n, "ext-md5", fmt.Sprintf("expected the part's own Content-MD5 %q", info.Ext["md5"]), it.Kids[at])
+		}
+		at++
+	}
+	// body-fld-dsp = "(" string SP body-fld-param ")"
+	d := it.Kids[at]
+	okD := d.IsList() && len(d.Kids) == 2 && d.Kids[0].IsString() && strings.EqualFold(d.Kids[0].Str, "attachment") && d.Kids[1].IsList() && len(d.Kids[1].Kids) == 2
+	if okD {
+		k, _ := d.Kids[1].Kids[0].NString()
+		v, _ := d.Kids[1].Kids[1].NString()
+		okD = strings.EqualFold(k, "filename") && v == info.Ext["filename"]
+	}
+	if !okD {
+		c.fail(n, "ext-disposition", fmt.Sprintf("expected the part's own disposition (\"attachment\" (\"filename\" %q))", info.Ext["filename"]), d)
+	}
+	// body-fld-lang = nstring / "(" string *(SP string) ")"
+	l := it.Kids[at+1]
+	lang, okL := l.NString()
+	if l.IsList() {
+		okL = len(l.Kids) == 1
+		if okL {
+			lang, okL = l.Kids[0].NString()
+		}
+	}
+	if !okL || !strings.EqualFold(lang, info.Ext["language"]) {
+		c.fail(n, "ext-language", fmt.Sprintf("expected the part's own language %q", info.Ext["language"]), l)
+	}
+	if v, ok := it.Kids[at+2].NString(); !ok || v != info.Ext["location"] {
+		c.fail(n, "ext-location", fmt.Sprintf("expected the part's own location %q", info.Ext["location"]), it.Kids[at+2])
 	}
 }
 
